@@ -56,7 +56,9 @@ def make_cfg(desc):
         rng = random.Random(desc.get("seed"))
         if kind == "extend":
             child = db.extend()
-            for line in addl:
+            for li, line in enumerate(addl):
+                if desc.get("levels") == 2 and li == (len(addl) + 1) // 2 and li > 0:
+                    child = child.extend()                       # the remaining statements go into an extension of the extension
                 for stmt in PrologString(line + "\n"):
                     child += stmt
                 r = rng.random()
@@ -94,6 +96,8 @@ def work(item):
         b = {"kind": "extend", "split": idxs, "seed": "%s/%d" % (name, k), "chain": k % 2 == 1}
         if name.startswith("extidx/"):
             b["ground_each"] = True
+        if k % 3 == 2 or (name.startswith("extidx/") and k == 0):
+            b["levels"] = 2
         diffcheck.diff_check(text, make_cfg(a), make_cfg(b), a, b, groups=groups, name=name, st=st)
         a2 = {"kind": "base", "split": idxs}
         b2 = {"kind": "parent_after_extend", "split": idxs, "seed": "%s/%d" % (name, k)}
@@ -107,7 +111,7 @@ def main(tier, seed):
               "(isolation); both sides evaluated by the real pipeline with symbolic weights, z3 decides identity")
     run.functions = FUNCS
     run.assumptions = ["histories: <= 4 added statements (facts, rules, ADs; new and existing predicates), "
-                       "seeded splits and interleavings; bounded",
+                       "seeded splits and interleavings; one or two levels of extension (the added statements split over child and grandchild); bounded",
                        "a base program whose queries need an added predicate may raise UnknownClause on both sides"]
     ns = 3 if tier == "quick" else 20
     progs = [(n, p) for n, p in gen.corpus()]
